@@ -497,5 +497,151 @@ def rule_G3(ctx):
                "(%d cases by abstract evaluation of the relocation loop)" % n_eval, loc=f.loc(loop))
 
 
-RULES = {"G3": rule_G3, "W8": rule_W8, "U5": rule_U5, "X5": rule_X5, "V4": rule_V4, "R9": rule_R9, "G4": rule_G4,
+def _null_consistent(f, items):
+    """prune paths that test a variable as NULL after assigning it a string literal (or as
+    non-NULL after assigning NULL) with no store in between"""
+    from ..util import nullness
+    from ..callgraph import is_null
+    state = {}
+    for it in items:
+        if it[0] == "ev":
+            n = f.nodes.get(it[1])
+            if n is None:
+                continue
+            tgt = rhs = None
+            if n["k"] == "bin" and n["op"] == "=" and n["l"]["k"] == "ref":
+                tgt, rhs = n["l"]["name"], strip_casts(n["r"])
+            elif n["k"] == "var" and "init" in n:
+                tgt, rhs = n["name"], strip_casts(n["init"])
+            if tgt is None:
+                continue
+            if rhs is not None and rhs["k"] == "str":
+                state[tgt] = False
+            elif rhs is not None and is_null(rhs):
+                state[tgt] = True
+            else:
+                state.pop(tgt, None)
+        elif it[0] == "br":
+            nn = nullness(f.nodes[it[1]], it[2])
+            if nn is not None and nn[0]["k"] == "ref" and nn[0]["name"] in state:
+                if state[nn[0]["name"]] != nn[1]:
+                    return False
+    return True
+
+
+def rule_M3(ctx):
+    ctx.begin("M3", floor=1, what="a failed search leaves the cursor where it was")
+    f = ctx.prog.func("vi_search", file="vi.c")
+    cfg = f.cfg
+    from .w import result_test
+    outs = [p["name"] for p in f.params if p["ty"] == "int *"]
+    calls = list(f.calls("lbuf_search"))
+    if not calls:
+        raise AnalysisBroken("vi_search does not call lbuf_search")
+    for c in calls:
+        rt = result_test(f, c, "!=0")
+        if rt[0] != "branch":
+            ctx.violation("vi_search", "search failure is tested", "result of lbuf_search: %s" % rt[0], f.loc(c))
+            continue
+        _, bid, k, cond = rt
+        start = cfg.blocks[bid].succ[k]
+        bad = None
+        n_p = 0
+        try:
+            paths = enum_paths(cfg, start, set(), max_paths=3000)
+        except OverflowError:
+            ctx.inconclusive("vi_search", "failed search", "too many paths")
+            continue
+        for items, end in paths:
+            if end != cfg.exit or not _null_consistent(f, items):
+                continue
+            n_p += 1
+            for x in items:
+                if x[0] != "ev":
+                    continue
+                n = f.nodes.get(x[1])
+                if n is not None and n["k"] == "bin" and n["op"] in ("=", "+=", "-=") and \
+                        n["l"]["k"] == "un" and n["l"]["op"] == "*" and key(n["l"]["e"]) in outs:
+                    bad = n
+            rets = [f.nodes[x[1]] for x in items if x[0] == "ev" and f.nodes.get(x[1], {}).get("k") == "return"]
+            if rets and cval(rets[-1].get("e")) == 0:
+                bad = rets[-1]
+        if bad is not None:
+            ctx.violation("vi_search", "a failed search leaves the cursor where it was",
+                          "after lbuf_search failed (also on a later round of a counted search) `%s` is "
+                          "reachable: the cursor moves although the search as a whole failed" % key(bad)[:50],
+                          f.loc(bad))
+        elif n_p:
+            ctx.ok("vi_search", "on %d paths after a failed lbuf_search neither *row nor *off is stored "
+                   "and no success is returned" % n_p, loc=f.loc(c))
+        else:
+            ctx.inconclusive("vi_search", "failed search", "no path from the failing edge recognised")
+
+
+def rule_K5(ctx):
+    ctx.begin("K5", floor=2, what="a character's width is taken at the column it is placed at")
+    prog = ctx.prog
+    n = 0
+    for f in prog.funcs.values():
+        if f.file != "ren.c":
+            continue
+        for s_, lv, op, rhs in stores(f.body):
+            if op != "+=" or lv["k"] != "ref" or rhs is None:
+                continue
+            r = strip_casts(rhs)
+            if not is_call(r, "ren_cwid"):
+                continue
+            n += 1
+            acc = lv["name"]
+            col = key(strip_casts(r["args"][1]))
+            # the position stored for that character in the same loop body
+            lp = enclosing(f, s_["id"], ("for", "while"))
+            stored = [key(strip_casts(x_rhs)) for x, x_lv, x_op, x_rhs in stores(lp["body"] if lp else f.body)
+                      if x_lv["k"] == "sub" and x_op == "=" and x_rhs is not None and
+                      key(strip_casts(x_lv["base"])) == "pos"]
+            if col == acc and (not stored or all(v == acc for v in stored)):
+                ctx.ok(f.name, "width of each character computed at the running column `%s` it is placed at" % acc,
+                       loc=f.loc(s_))
+            else:
+                ctx.violation(f.name, "cell widths tile from the running column",
+                              "the running column `%s` is advanced by ren_cwid(.., %s) while the character is "
+                              "placed at %s: a tab or placeholder gets the width of another column" % (
+                                  acc, col, stored or acc), f.loc(s_))
+    if n < 2:
+        ctx.broken("only %d layout accumulations found" % n)
+
+
+def rule_O2(ctx):
+    ctx.begin("O2", floor=1, what="nested marks recurse with their own direction")
+    f = ctx.prog.func("dir_fix", file="dir.c")
+    own_dir = f.params[2]["name"]
+    # the out-variable that dir_match fills with the matched mark's direction
+    mdir = None
+    dm = ctx.prog.func("dir_match", file="dir.c")
+    dpos = [i for i, p in enumerate(dm.params) if p["name"] == "dir"]
+    for c in f.calls("dir_match"):
+        if dpos and dpos[0] < len(c["args"]):
+            a = strip_casts(c["args"][dpos[0]])
+            if a["k"] == "un" and a["op"] == "&":
+                mdir = key(a["e"])
+    if mdir is None:
+        raise AnalysisBroken("dir_fix: direction out-argument of dir_match not found")
+    rec = list(f.calls("dir_fix"))
+    if not rec:
+        ctx.inconclusive("dir_fix", "nested marks", "no recursive call")
+        return
+    for c in rec:
+        a = key(strip_casts(c["args"][2]))
+        if a == mdir:
+            ctx.ok("dir_fix", "nested group is fixed with the matched mark's direction `%s`" % mdir, loc=f.loc(c))
+        elif a == own_dir:
+            ctx.violation("dir_fix", "nested mark keeps its own direction",
+                          "the recursive call passes the enclosing context `%s` instead of the direction `%s` "
+                          "of the matched mark: a nested group in a line of the other direction is reversed "
+                          "twice" % (own_dir, mdir), f.loc(c))
+        else:
+            ctx.inconclusive("dir_fix", "nested marks", "direction argument %s" % a, f.loc(c))
+
+
+RULES = {"M3": rule_M3, "K5": rule_K5, "O2": rule_O2, "G3": rule_G3, "W8": rule_W8, "U5": rule_U5, "X5": rule_X5, "V4": rule_V4, "R9": rule_R9, "G4": rule_G4,
          "N6": rule_N6, "V6": rule_V6}
